@@ -510,3 +510,104 @@ func TestWholeFramesHuge(t *testing.T) {
 	hx.EvalN(n)
 	hx.Part("whole frames > 1 MiB followed by another frame", int64(n), true)
 }
+
+// TestFrameConstructorsAndAccessors: the frame constructors, the Must*
+// variants and the reserved-bit helpers are thin layers over the codec; what
+// they put on the wire (and read back from it) must be the reference encoding
+// of the frame they document.
+func TestFrameConstructorsAndAccessors(t *testing.T) {
+	// reserved-bit helpers, exhaustively: Rsv/RsvBits/Header.RsvN agree with the wire bits 0x40 0x20 0x10
+	for v := 0; v < 8; v++ {
+		r1, r2, r3 := v&4 != 0, v&2 != 0, v&1 != 0
+		rsv := ws.Rsv(r1, r2, r3)
+		h := ws.Header{Fin: true, OpCode: ws.OpBinary, Rsv: rsv}
+		rec := tx.NewRec()
+		if err := ws.WriteHeader(rec, h); err != nil {
+			t.Fatalf("WriteHeader: %v", err)
+		}
+		b0 := rec.Bytes()[0]
+		if (b0&0x40 != 0) != r1 || (b0&0x20 != 0) != r2 || (b0&0x10 != 0) != r3 {
+			t.Fatalf("ws.Rsv(%v,%v,%v)=%#x went to the wire as first byte %#x", r1, r2, r3, rsv, b0)
+		}
+		got, err := ws.ReadHeader(bytes.NewReader(rec.Bytes()))
+		if err != nil {
+			t.Fatalf("ReadHeader: %v", err)
+		}
+		g1, g2, g3 := ws.RsvBits(got.Rsv)
+		if g1 != r1 || g2 != r2 || g3 != r3 || got.Rsv1() != r1 || got.Rsv2() != r2 || got.Rsv3() != r3 {
+			t.Fatalf("reserved bits %v %v %v read back as RsvBits=%v %v %v, Rsv1/2/3=%v %v %v", r1, r2, r3, g1, g2, g3, got.Rsv1(), got.Rsv2(), got.Rsv3())
+		}
+		hx.Eval()
+	}
+	type ctor struct {
+		name string
+		mk   func(p []byte) ws.Frame
+		op   byte
+		fin  bool
+	}
+	ctors := []ctor{
+		{"NewTextFrame", ws.NewTextFrame, ref.OpText, true},
+		{"NewBinaryFrame", ws.NewBinaryFrame, ref.OpBinary, true},
+		{"NewPingFrame", ws.NewPingFrame, ref.OpPing, true},
+		{"NewPongFrame", ws.NewPongFrame, ref.OpPong, true},
+		{"NewCloseFrame", ws.NewCloseFrame, ref.OpClose, true},
+	}
+	for op := 0; op < 16; op++ {
+		for _, fin := range []bool{false, true} {
+			op, fin := op, fin
+			ctors = append(ctors, ctor{fmt.Sprintf("NewFrame(%#x,%v)", op, fin), func(p []byte) ws.Frame { return ws.NewFrame(ws.OpCode(op), fin, p) }, byte(op), fin})
+		}
+	}
+	for _, c := range ctors {
+		for _, n := range []int{0, 1, 2, 125, 126, 127, 300, 65535, 65536, 65537} {
+			if ref.IsControl(c.op) && n > 125 && c.name[:8] != "NewFrame" {
+				continue // the control-frame constructors document a 125 byte limit
+			}
+			p := gen.Filled(n, byte(n))
+			f := c.mk(p)
+			want := append(ref.EncodeHeader(ref.Header{Fin: c.fin, Op: c.op, Length: int64(n)}), p...)
+			rec := tx.NewRec()
+			ws.MustWriteFrame(rec, f)
+			if !bytes.Equal(rec.Bytes(), want) {
+				t.Fatalf("%s with %d payload bytes, written with MustWriteFrame: %x…, want %x…", c.name, n, head(rec.Bytes()), head(want))
+			}
+			if got := ws.MustCompileFrame(f); !bytes.Equal(got, want) {
+				t.Fatalf("%s with %d payload bytes, MustCompileFrame: %x…, want %x…", c.name, n, head(got), head(want))
+			}
+			back := ws.MustReadFrame(tx.NewSrc(want, []int{1, 3}))
+			if !sameHeader(toRef(back.Header), ref.Header{Fin: c.fin, Op: c.op, Length: int64(n)}) || !bytes.Equal(back.Payload, p) {
+				t.Fatalf("MustReadFrame of %s(%d bytes): header %v, %d payload bytes", c.name, n, toRef(back.Header), len(back.Payload))
+			}
+			// the Must variants panic where the plain ones return an error
+			if n > 0 {
+				func() {
+					defer func() {
+						if recover() == nil {
+							t.Fatalf("MustReadFrame returned normally on a frame cut inside its payload (%s, %d of %d bytes)", c.name, n-1, n)
+						}
+					}()
+					ws.MustReadFrame(bytes.NewReader(want[:len(want)-1]))
+				}()
+			}
+			func() {
+				fail := tx.NewRec()
+				fail.FailAt = 0
+				defer func() {
+					if recover() == nil {
+						t.Fatalf("MustWriteFrame returned normally although the destination failed (%s)", c.name)
+					}
+				}()
+				ws.MustWriteFrame(fail, f)
+			}()
+			hx.Eval()
+			hx.NonTrivial(hx.Hash("ctor", c.name, n), func() interface{} { return map[string]interface{}{"constructor": c.name, "payload_len": n} })
+		}
+	}
+}
+
+func head(p []byte) []byte {
+	if len(p) > 16 {
+		return p[:16]
+	}
+	return p
+}
